@@ -604,6 +604,7 @@ impl Sim {
             Op::Vanish(pk) => self.do_vanish(i, pk),
             Op::Query(q) => self.do_query(i, q),
             Op::Reopen(k) => self.do_reopen(i, *k),
+            Op::Tables(n) => self.do_tables(i, *n),
             Op::Rebuild => self.do_rebuild(i),
             Op::ExtraPut(t, k, v) => self.do_extra(i, *t, k, Some(v)),
             Op::ExtraDel(t, k) => self.do_extra(i, *t, k, None),
@@ -1723,6 +1724,44 @@ impl Sim {
     fn next_dir(&mut self) -> PathBuf {
         self.dir_counter += 1;
         self.scratch.join(format!("d{}", self.dir_counter))
+    }
+
+    /// close, and open again with another set of extra tables: everything both configurations
+    /// show must be unchanged (the rows of a table that is opened again later are compared with the
+    /// model at the next step, like everything else)
+    fn do_tables(&mut self, i: usize, n: u8) -> Option<Finding> {
+        let n = n.min(EXTRA_NAMES.len() as u8);
+        let before = self.observe();
+        self.stats.inc("fault/restart/close_new_other_tables");
+        self.refs.clear();
+        self.remove_blockers();
+        self.close_store();
+        let was = self.cfg.extra_tables;
+        self.cfg.extra_tables = n;
+        if let Err(f) = self.open_store(i) {
+            return Some(f);
+        }
+        self.disturb("restart");
+        self.log.push(format!("#{i} tables {was} -> {n}"));
+        self.sig_mix(&format!("tables:{n}"));
+        let after = self.observe();
+        // (count/general is the engine's own list of named tables: it grows with a new table)
+        let diffs = self.unmasked(common(obs::diff_all(&before, &after, &["count/general"])));
+        if !diffs.is_empty() {
+            let ctx = OpCtx { kind: CtxKind::Restart, event: None, desc: format!("reopen with {n} extra tables (before: {was})"), also: &[] };
+            let (bi, clause, props) = self.attribute_all(&diffs, &ctx);
+            let (k, a, b) = &diffs[bi];
+            return Some(self.finding(i, &format!("reopen-changed-{clause}"), &props, format!("reopen with {n} extra tables (before: {was}) changed probe {}: {} -> {}", shorten_key(k), a, b)));
+        }
+        // what the model knows about the tables now open (rows put while they were open earlier)
+        let exp = self.expected();
+        for (k, w, g) in obs::all_diffs(&exp, &after) {
+            if k.starts_with("extra/") || k.starts_with("count/custom/") {
+                return Some(self.finding(i, "reopen-changed-extra-table", &["C16"], format!("after reopening with {n} extra tables (before: {was}) probe {} shows {} but the rows put earlier are {}", shorten_key(&k), g, w)));
+            }
+        }
+        self.last_obs = Some(after);
+        None
     }
 
     fn do_reopen(&mut self, i: usize, kind: ReopenKind) -> Option<Finding> {
